@@ -284,7 +284,8 @@ func (c *Config) GetHTTPClient(ctx context.Context) *retryablehttp.Client {
 
 func (c *Config) GetSecretsHasher(ctx context.Context) Hasher {
 	if c.ClientSecretsHasher == nil {
-		c.ClientSecretsHasher = &BCrypt{Config: c}
+		// Do not store the default: getters may run concurrently on a shared configuration.
+		return &BCrypt{Config: c}
 	}
 	return c.ClientSecretsHasher
 }
@@ -368,7 +369,8 @@ func (c *Config) GetAllowedPrompts(_ context.Context) []string {
 // GetScopeStrategy returns the scope strategy to be used. Defaults to glob scope strategy.
 func (c *Config) GetScopeStrategy(_ context.Context) ScopeStrategy {
 	if c.ScopeStrategy == nil {
-		c.ScopeStrategy = WildcardScopeStrategy
+		// Do not store the default: getters may run concurrently on a shared configuration.
+		return WildcardScopeStrategy
 	}
 	return c.ScopeStrategy
 }
@@ -376,7 +378,8 @@ func (c *Config) GetScopeStrategy(_ context.Context) ScopeStrategy {
 // GetAudienceStrategy returns the scope strategy to be used. Defaults to glob scope strategy.
 func (c *Config) GetAudienceStrategy(_ context.Context) AudienceMatchingStrategy {
 	if c.AudienceMatchingStrategy == nil {
-		c.AudienceMatchingStrategy = DefaultAudienceMatchingStrategy
+		// Do not store the default: getters may run concurrently on a shared configuration.
+		return DefaultAudienceMatchingStrategy
 	}
 	return c.AudienceMatchingStrategy
 }
